@@ -336,6 +336,10 @@ func ReadLength(reader Asn1Reader) (*Length, error) {
 		length.SetUint64(uint64(lengthOrSizeOfLength))
 	} else {
 		sizeOfLength = int(lengthOrSizeOfLength & 0x0F)
+		err = expectSupportedLengthForm(lengthOrSizeOfLength)
+		if err != nil {
+			return nil, err
+		}
 		length, err = ReadExpectedBigInt(reader, sizeOfLength)
 		if err != nil {
 			return nil, err
@@ -359,6 +363,10 @@ func PeekLength(reader Asn1Reader, offset int) (*Length, error) {
 	} else {
 		offset += 1
 		sizeOfLength = int(lengthOrSizeOfLength & 0x0F)
+		err = expectSupportedLengthForm(lengthOrSizeOfLength)
+		if err != nil {
+			return nil, err
+		}
 		length, err = PeekExpectedBigInt(reader, sizeOfLength, offset)
 		if err != nil {
 			return nil, err
@@ -368,6 +376,15 @@ func PeekLength(reader Asn1Reader, offset int) (*Length, error) {
 	return &Length{
 		Length: *length, LengthSize: sizeOfLength,
 	}, nil
+}
+
+// expectSupportedLengthForm rejects long form length bytes which were silently taken for another one before:
+// the indefinite form (0x80) was read as length 0 and 0x90..0xFF were read like 0x80..0x8F
+func expectSupportedLengthForm(lengthOrSizeOfLength uint8) error {
+	if (lengthOrSizeOfLength&0x70) != 0 || (lengthOrSizeOfLength&0x0F) == 0 {
+		return fmt.Errorf("unsupported length encoding, first length byte is %#x", lengthOrSizeOfLength)
+	}
+	return nil
 }
 
 func ReadExpectedBigInt(reader Asn1Reader, sizeOfLength int) (*big.Int, error) {
